@@ -1,22 +1,27 @@
 """C13 — background tasks yield to prioritized work, stay bounded, never self-overlap."""
+import os
 
 
 def run(ctx):
     ctx.lean_obligations(["SV.Props.C13"], drivers=["svdriver_c13"])
     quick = ctx.tier == "quick"
+    # how long a cancelled "stubborn" body stays alive while the oracle watches for a retry / return / hand-over
+    hold = os.environ.get("VERIF_C13_HOLD_MS") or (2500 if quick else 15000)
     b = ctx.go_test_binary("task", "h_task")
     if b:
         ctx.correspond(b, "TestVerifC13", "svdriver_c13", "c13",
-                       env={"VERIF_N": 500 if quick else 12000}, timeout=600 if quick else 3000)
+                       env={"VERIF_N": 500 if quick else 12000, "VERIF_C13_HOLD_MS": hold}, timeout=600 if quick else 3000)
     if not quick:
         # supporting evidence only: the same harness under the race detector (a reported race makes the
         # test binary exit non-zero, which the framework treats as a harness crash = violation)
         br = ctx.go_test_binary("task", "h_task_race", race=True)
         if br:
-            ctx.correspond(br, "TestVerifC13", "svdriver_c13", "c13race", env={"VERIF_N": 1500}, timeout=3000)
+            ctx.correspond(br, "TestVerifC13", "svdriver_c13", "c13race", env={"VERIF_N": 1500, "VERIF_C13_HOLD_MS": hold}, timeout=3000)
     return ctx.finish(
         level="proof",
-        rule="the real BackgroundTaskManager is run on 7 hand-written and N random scenarios (capacity 1-3, silence "
+        rule="the real BackgroundTaskManager is run on 3 stubborn-body scenarios (a cancelled body stays alive for "
+             "VERIF_C13_HOLD_MS while prioritized work has ended; any retry, return or slot hand-over during the hold is a "
+             "violation), 7 hand-written and N random scenarios (capacity 1-3, silence "
              "period 0-3 ms, 1-5 concurrent InvokeBackgroundTask calls whose bodies are instant / obedient / late-reacting / "
              "deaf to ctx / spinning / long-running, 0-3 goroutines doing 1-4 prioritized begin/end pairs, GOMAXPROCS "
              "1/2/4/all); the linearised hook trace of every scenario is fed to the Lean trace acceptor (each event must be an "
